@@ -136,7 +136,9 @@ static void put_body(const bool create_only) {
         ASSERT(e && e->key == &keyobj[ki] && e->value == &valobj[vi], "put: the key now maps to the new value (and the new key pointer)");
         if (existed) chk_no_destructor_calls_except(kp0[s0] != ki ? kp0[s0] : 2 * KN, vp0[s0]);
         else chk_no_destructor_calls_except(2 * KN, 2 * KN + 2);
+#ifdef VERIF_TIER_THOROUGH
         if (existed && kp0[s0] != ki) WITNESS("put overwrites through an equal-but-distinct key pointer");
+#endif
     }
     chk_map(existed ? c : KN, c);
     if (!existed && count0 >= 2) WITNESS("insert into a table with >= 2 entries");
